@@ -17,7 +17,9 @@
                                 parent is x (package context does that before `cancel` returns)
     ep state                  → one canonical line (see `summary`)
     ep enabled <action> …     → `yes` | `no`   (does not change the state)
-  Error codes: 0 ErrClosed, 1 link ctx error, 2 marshal, 3 decode, n+4 external error n
+  Error codes: 0 ErrClosed, 1 link ctx error, 2 marshal, 3 decode, 4 the call's own context error
+  (panic value of a stub whose `Receive` refused a done context — impossible on a tree with
+  `bcReceiveErrorsOnlyClosed`), n+5 external error n
   (`setErrEnter t n` and `callWriteFail c n` take the external number n).
 -/
 import Panrpc.Generated.Current
